@@ -220,7 +220,31 @@ fn gen_script(rng: &mut Rng, inputs_hint: &[String], world: &[(String, JV)]) -> 
         if !inputs_hint.is_empty() && rng.chance(2, 3) { rng.pick(inputs_hint).clone() } else { (*rng.pick(KEYS)).to_string() }
     };
     let mut gen_ce = |rng: &mut Rng, bound: &Vec<(String, bool)>| -> (CE, bool) {
-        match rng.below(11) {
+        match rng.below(13) {
+            11 | 12 => {
+                // one value reached twice inside the same container (the same heap cell shared by
+                // two members): a bound name, an input through both spellings, the inputs record
+                let k = any_key(rng);
+                let (x, y) = if !bound.is_empty() && rng.chance(1, 2) {
+                    let n = rng.pick(bound).0.clone();
+                    (CE::Name(n.clone()), CE::Name(n))
+                } else if crate::hast::is_ident(&k) {
+                    match rng.below(3) {
+                        0 => (CE::InRef(k.clone()), CE::InDot(k)),
+                        1 => (CE::InDot(k.clone()), CE::InDot(k)),
+                        _ => (CE::InRef(k.clone()), CE::InRef(k)),
+                    }
+                } else {
+                    (CE::Inputs, CE::Inputs)
+                };
+                let e = match rng.below(4) {
+                    0 => CE::List(vec![x, y]),
+                    1 => CE::Rec(vec![("a".into(), x), ("b".into(), y)]),
+                    2 => CE::List(vec![CE::List(vec![x]), CE::Rec(vec![("z".into(), y)])]),
+                    _ => CE::Rec(vec![("a".into(), CE::Rec(vec![("in".into(), x)])), ("b".into(), CE::List(vec![y, CE::Lit(JV::Num(1.0))]))]),
+                };
+                (e, false)
+            }
             0 => (CE::Lit(gen_jv(rng, 1)), false),
             1 => (CE::Lit(JV::Num(rng.range(0, 40) as f64)), true),
             2 | 3 => {
